@@ -38,23 +38,23 @@ PROPS = {
                 claim='dfa_size_analyzer arithmetic (prim/add/rep: {0} keeps the slice, {n} adds n-1 copies) under an explicit no-wrap precondition; cvector preconditions (size < N) as call-site obligations; stack/capacity of the driver; add_situation capacity preconditions',
                 assumptions=['analyser vs builder lock-step over the same parse is not mechanised; the builder (rep/cat/alt/...) is not under contract', 'sufficiency of the default table caps is a counting (pigeonhole) argument, not mechanised',
                              'nothing in the header establishes the no-wrap precondition of dfa_size_analyzer::rep (finding D12)']),
-    'C02': dict(units=['driver', 'stdex', 'dfa', 'terms', 'rules'],
+    'C02': dict(units=['driver', 'stdex', 'dfa', 'terms', 'rules', 'values'],
                 claim='driver-level half of bottom-up evaluation: which rule functor is invoked, with which stack slice, in which order, once; shift applies the term functor of the shifted term to the pending lexeme; success returns the bottom value',
                 assumptions=[L_PATH, L_IDS, TABLE_WF, R13, 'that the popped slice is the handle of the unique derivation is the LR(1) theorem (C01), not mechanised']),
-    'C04': dict(units=['driver', 'utils', 'dfa', 'buffers', 'terms'], static=[SF.buffers_static],
+    'C04': dict(units=['driver', 'utils', 'dfa', 'buffers', 'terms', 'values'], static=[SF.buffers_static],
                 claim='whitespace skipping is exactly the documented sets; the lexer is asked once at the skipped position with the whole rest of the buffer; the lexeme is exactly [current_it, current_it+len); a failure result yields one Unexpected character report',
                 assumptions=[LEXER, 'longest match/first-listed priority of the automaton itself: unit dfa (dfa_match/run); the union automaton built by merging is not verified (finding D10)']),
-    'C06': dict(units=['driver', 'stdex', 'utils', 'regex_lexer', 'dfa'], all=['driver', 'stdex'],
+    'C06': dict(units=['driver', 'stdex', 'utils', 'regex_lexer', 'dfa', 'values'], all=['driver', 'stdex'],
                 claim='every CBMC safety check (bounds, pointer validity/overflow, signed/unsigned overflow, division) plus the logical bounds woven by R9/R7 on every parse-path function under its precondition; recovery pops and input discarding strictly progress',
                 assumptions=[L_PATH, L_IDS, TABLE_WF, LEXER, 'termination of a run of reductions that consume nothing (no reduce cycle in a conflict-free table) is not mechanised',
                              'std::vector / std::string stacks and buffers are trusted; the proof is for the cvector stacks']),
     'C08': dict(units=['driver', 'state_analyzer'],
                 claim='step relation of the driver loop written from the documented recovery algorithm: enter (one message, nothing discarded), pop (one state and its value), shift of the error symbol, input discarding, exits',
                 assumptions=[L_PATH, L_IDS, TABLE_WF, LEXER]),
-    'C09': dict(units=['driver', 'terms'],
+    'C09': dict(units=['driver', 'terms', 'values'],
                 claim='without error rules and not verbose: no event before the failure, exactly one (Unexpected character | Syntax error) on failure with position and payload, none on success',
                 assumptions=[L_PATH, TABLE_WF, LEXER, 'that the term reported is the first that cannot continue a valid prefix is the immediate-error-detection property of canonical LR(1) tables (C01), not mechanised']),
-    'C10': dict(units=['driver'],
+    'C10': dict(units=['driver', 'values'],
                 claim="source_point::update follows the statement's rule byte by byte; every advance of the parse position is paired with an update over exactly that range; values and messages carry the source point of the pending term's first byte",
                 assumptions=['line/column counters below 2^30 (cannot be reached with buffers <= 4096 bytes; the counters are 32-bit)', LEXER]),
     'C14': dict(units=['driver', 'stdex'],
@@ -63,14 +63,14 @@ PROPS = {
     'C15': dict(units=['driver'], all=['driver'], static=[SF.c15_static],
                 claim='frame: no parse-path function writes parse_table, gi, state_count, names or any other parser member (assigns clauses contain only parse-local state); static scan: no mutable/const_cast/function-local static, parse members const',
                 assumptions=['data-race freedom follows from read-only sharing; no schedule is explored', R13]),
-    'C16': dict(units=['driver'], all=['driver'], static=[SF.c16_static],
+    'C16': dict(units=['driver', 'values'], all=['driver'], static=[SF.c16_static],
                 claim='every contract states the same state change for verbose on and off (verbose only adds events); trace payloads (Shift to, Reduced using rule, Go to, Recognized) equal the action performed',
                 assumptions=['stream type: both no_stream and std::ostream lower to the ghost event sink (R10); text formatting is not verified', LEXER]),
-    'C17': dict(units=['utils', 'regex_lexer', 'terms'],
+    'C17': dict(units=['utils', 'regex_lexer', 'terms', 'values'],
                 claim='regex_lexer::match and its helpers read only the pattern array (terminator included) and refuse raw non-printable bytes, dangling backslashes and unterminated sets; find_str never returns a wrong or uninitialized index',
                 assumptions=['patterns are NUL-terminated arrays (cstring_buffer keeps the terminator at end())',
                              'grammar-level rejections (unbalanced group, leading quantifier, empty alternative, {}) rest on C01 applied to the regex grammar: not mechanised']),
-    'C18': dict(units=['driver', 'regex_lexer', 'terms'],
+    'C18': dict(units=['driver', 'regex_lexer', 'terms', 'values'],
                 claim='get_current_term under the weakest custom-lexer contract: asked once per needed term after the same whitespace skipping, index used unchanged, exactly len bytes pending, default result => Unexpected character',
                 assumptions=[LEXER, 'custom_term constructor and accessors are under contract (unit terms); its value typing (internal_value_type, value_type_t) is C++ template machinery outside the verified text']),
 }
